@@ -404,3 +404,47 @@ def normpath_table(ctx, rule, maxlen=4):
     ctx.ob(rule, "normpath/table", bad is None, "normpath(%r) gives %r, the RFC 3986 dot-segment reference gives %r" % (bad or ("", "", "")), ut.site(ref.node), witness=bad and "http://a.com" + bad[0],
            sample="%d absolute paths of <= %d segments over {a, b, ., .., empty}" % (n, maxlen))
 
+
+
+PUNY_LABELS = ("a", "xn--caf-dma", "XN--caf-dma", "Xn--CAF-DMA", "café", "xn--zz--", "xn--", "www")
+
+
+def rule_punycode(ctx, rule):
+    """decode_punycode_hostname decodes every punycode label independently of its neighbours."""
+    ctx.rule(rule, "punycode decoding is per label: decode_punycode_hostname, interpreted on every host of 1-3 labels over the label kinds {ASCII, punycode, punycode with upper-case header / body, Unicode, undecodable punycode, bare header}, decodes exactly the labels that start with 'xn--' (any case) and are valid punycode, leaves the others as they are, whatever the neighbouring labels look like; as_parts=True gives the same labels as a list")
+    import itertools
+    repo = ctx.repo
+    ut = repo.mod("utils")
+    ref = ut.func("decode_punycode_hostname")
+    ctx.fn(ref.qualname, "ural.utils.attempt_to_decode_idna")
+    site = ut.site(ref.node)
+
+    def ref_label(lab):
+        if lab[:4].lower() == "xn--":
+            try:
+                return ("xn--" + lab[4:]).encode("utf8").decode("idna")
+            except UnicodeError:
+                return lab
+        return lab
+
+    n = 0
+    bad = None
+    for L in (1, 2, 3):
+        for labs in itertools.product(PUNY_LABELS, repeat=L):
+            host = ".".join(labs)
+            exp = [ref_label(l) for l in labs]
+            n += 1
+            try:
+                got = run_function(repo, ref, [host])
+                gotp = run_function(repo, ref, [host], {"as_parts": True})
+            except Unknown as e:
+                ctx.undecided(rule, "decode_punycode_hostname(%r): %s" % (host, e))
+                return
+            if got != ".".join(exp) or list(gotp) != exp:
+                bad = (host, got, gotp, exp)
+                break
+        if bad:
+            break
+    ctx.ob(rule, "decode_punycode_hostname/table", bad is None,
+           "decode_punycode_hostname(%r) gives %r / as_parts %r, expected the labels %r" % (bad or ("", "", "", "")), site, witness=bad and "http://%s/" % bad[0],
+           sample="%d hosts of 1-3 labels over %d label kinds" % (n, len(PUNY_LABELS)))
